@@ -55,7 +55,7 @@ BUDGET = {"quick": 600, "thorough": 12000}
 ESSENTIAL = ["graph:cycle>=2", "graph:selfloop", "graph:remote->file",
              "id:equal", "id:prefix-mapped", "id:prefix-unmapped", "id:unrelated",
              "id:referrer-none", "id:basin-none", "loc:relative", "loc:dangling",
-             "loc:second-candidate", "type:file", "type:http", "type:s3sim",
+             "loc:second-candidate", "loc:second-after-mismatch", "type:file", "type:http", "type:s3sim",
              "type:internal", "open:local", "open:http", "open:s3sim",
              "must:nested", "must:direct", "absent:expected"]
 ASSUMPTIONS = [
@@ -239,7 +239,7 @@ def st_spec(draw):
         style = draw(st.sampled_from(["abs", "abs", "rel"]))
         locs = [{"to": b, "style": style}]
         extra = draw(st.sampled_from(["", "", "", "", "dangling-first", "dangling-only",
-                                      "second"]))
+                                      "second", "second"]))
         if extra == "dangling-first":
             locs.insert(0, {"to": -1, "style": draw(st.sampled_from(["abs", "rel"]))})
         elif extra == "dangling-only":
@@ -248,6 +248,11 @@ def st_spec(draw):
             other = {"to": draw(st.integers(0, k - 1)),
                      "style": draw(st.sampled_from(["abs", "rel"]))}
             if draw(st.booleans()):
+                # a first candidate that exists but belongs to another measurement
+                bad = [j for j in range(k)
+                       if verdict(r, RID[rids[j]], mapped) in ("no", "kf")]
+                if bad and draw(st.integers(0, 3)) > 0:
+                    other["to"] = draw(st.sampled_from(bad))
                 locs.insert(0, other)
             else:
                 locs.append(other)
@@ -562,6 +567,10 @@ def _count_classes(spec, rec):
             mapped = e["map"] is not None
             if len([lo for lo in e["locs"] if lo["to"] >= 0]) > 1:
                 seen.add("loc:second-candidate")
+                vs = [verdict(r, RID[files[lo["to"]]["rid"]], mapped)
+                      for lo in e["locs"] if lo["to"] >= 0]
+                if e["type"] == "file" and vs[0] in ("no", "kf") and vs[1] == "yes":
+                    seen.add("loc:second-after-mismatch")
             for lo in e["locs"]:
                 if lo["to"] < 0:
                     seen.add("loc:dangling")
